@@ -110,8 +110,8 @@ PROPS = {
         "assumptions": ["an address belongs to one node for the whole run"],
     },
     "C17": {
-        "suites": ["select"],
-        "level_text": "C17_bounds, C17_seed_forced, C17_dead_forced, C17_no_zero_division for every outcome of the random generator (sampled subset, both f64 draws, both choose() results are universally quantified arguments); the real select_nodes_for_gossip is run on every subset structure of peer/live/dead/seed sets with constant (extreme, mid) and counter generators and its result is checked against the relational model (exactly, for constant generators).",
+        "suites": ["select", "server"],
+        "level_text": "C17_bounds, C17_seed_forced, C17_dead_forced, C17_no_zero_division for every outcome of the random generator (sampled subset, both f64 draws, both choose() results are universally quantified arguments); the real select_nodes_for_gossip is run on every subset structure of peer/live/dead/seed sets with constant (extreme, mid) and counter generators and its result is checked against the relational model (exactly, for constant generators). The pools: the real server loop is run (scripted transport, paused clock) with 0..5 heartbeating and 0..4 silent peers and a seed that is absent / an outsider / a member / the node itself; for every gossip round the SYN destinations are checked against the live, dead and seed sets the public API shows just before the tick, by the monitor and by the model's selCheck.",
         "level_note": _COMMON_NOTE + "rand's sample/choose are trusted to return a subset of the requested size / an element of the set (SelRandom.Valid); f64 probability comparisons are modelled with exact rationals (constants avoid ties).",
         "assumptions": ["rand::seq sample/choose contracts"],
     },
